@@ -34,6 +34,8 @@ def engine(res, spec, tier, seed, extended=False):
         jobs.append((sc, 0, n, list(common)))                             # one step at a time
         variants = [('split', common + ['--splits', ','.join(map(str, splits_of(rng, n)))]) for _ in range(2 if tier == 'quick' else 5)]
         variants += [('batch', common + ['--batch', '--end-step', str(n)]), ('runner_step', common + ['--runner-step', '--end-step', str(n)])]
+        # an end time that falls strictly inside the last step: the interval is covered by the same n steps
+        variants += [('batch', common + ['--batch', '--end-step', str(n), '--end-offset', '7']), ('runner_step', common + ['--runner-step', '--end-step', str(n), '--end-offset', '7'])]
         for name, extra in variants:
             jobs.append((sc, 0, n, extra))
         plan.append((sc, variants))
